@@ -194,8 +194,65 @@ class R:
         lines.append("}")
         return lines
 
+    def data_param(self, h):
+        """(attribute, rust type, echo expression) of a success method's data parameter."""
+        from .spec import data_attr
+        mode = h["data"]
+        if mode is None:
+            return None
+        if mode == "raw":
+            ty = "Binary"
+        elif mode == "raw_opt":
+            ty = "Option<Binary>"
+        elif mode == "typed":
+            ty = self.ty(h["data_ti"])
+        elif mode == "opt":
+            ty = f"Option<{self.ty(h['data_ti'])}>"
+        elif mode == "instantiate":
+            ty = f"{self.sv}::cw_utils::MsgInstantiateContractResponse"
+        else:
+            ty = f"Option<{self.sv}::cw_utils::MsgInstantiateContractResponse>"
+        if mode == "instantiate":
+            echo = "j(&(data.contract_address.clone(), data.data.clone()))"
+        elif mode == "instantiate_opt":
+            echo = "j(&data.as_ref().map(|d| (d.contract_address.clone(), d.data.clone())))"
+        else:
+            echo = "j(&data)"
+        return data_attr(mode), ty, echo
+
     def reply_handler_src(self, h):
-        raise NotImplementedError
+        p = self.p
+        M, Q = cm(p), cq(p)
+        extra = ""
+        if h.get("handlers"):
+            extra += ", handlers=[" + ", ".join(h["handlers"]) + "]"
+        extra += f", reply_on={h['reply_on']}"
+        lines = [f"#[sv::msg(reply{extra})]"]
+        params = ["&self", f"ctx: ReplyCtx<{Q}>"]
+        echo = []
+        if h["reply_on"] == "success":
+            dp = self.data_param(h)
+            if dp:
+                params.append(f"{dp[0]} data: {dp[1]}")
+                echo.append(f"(\"data\", {dp[2]})")
+        elif h["reply_on"] == "error":
+            params.append("error: String")
+            echo.append("(\"error\", j(&error))")
+        else:
+            params.append("result: SubMsgResult")
+            echo.append("(\"result\", svmon::serde_json::to_string(&result).unwrap())")
+        if h["payload"] == "raw":
+            params.append("#[sv::payload(raw)] payload: Binary")
+            echo.append("(\"payload\", j(&payload))")
+        else:
+            for nm, ti in zip(h["payload_names"], h["payload"]):
+                params.append(f"{nm}: {self.ty(ti)}")
+                echo.append(f"(\"{nm}\", j(&{nm}))")
+        lines.append(f"fn {h['name']}({', '.join(params)}) -> {self._ret(h, M, p['error'])} {{")
+        lines.append("    let obs = ReplyObs { gas_used: ctx.gas_used, events: &ctx.events, msg_responses: &ctx.msg_responses };")
+        lines.append(f"    echo_mut(\"{h['hid']}\", ctx.deps, &ctx.env, None, Some(obs), vec![{', '.join(echo)}])")
+        lines.append("}")
+        return lines
 
     def prelude(self):
         sv = self.sv
@@ -327,6 +384,7 @@ class R:
 
         arms_before = len(arms)
         self.helper_arms(arm)
+        self.reply_arms(arm)
         arms += self.extra_arms()
         lines = [
             "pub struct P;",
@@ -353,6 +411,30 @@ class R:
 
     def extra_arms(self):
         return []
+
+    def reply_arms(self, arm):
+        p = self.p
+        if not p.get("reply_table"):
+            return
+        sv = self.sv
+        M, Q = cm(p), cq(p)
+        tb = p["reply_table"]
+        ids = ", ".join(f"\"{n}\": sv::{n.upper()}_REPLY_ID" for n in tb["names"])
+        arm("reply_ids", f"json!({{\"res\": {{\"ok\": {{ {ids} }} }} }})")
+        arm("dispatch_reply",
+            f"let mut c = ctx::<{Q}>(a); let rep: Reply = svmon::serde_json::from_value(a[\"reply\"].clone()).expect(\"reply\"); "
+            f"let r = sv::dispatch_reply(c.deps.as_mut(), c.env.clone(), rep, {self.cid}::new()).map(resp_json).map_err(herr); finish(r, &c)")
+        for n, info in tb["names"].items():
+            if info["payload"] == "raw":
+                decls = "let a0: Binary = arg(a, 0);"
+                args = "a0"
+            else:
+                decls = " ".join(f"let a{i}: {self.ty(ti)} = arg(a, {i});" for i, ti in enumerate(info["payload"]))
+                args = ", ".join(f"a{i}" for i in range(len(info["payload"])))
+            for recv, ty in (("submsg", f"{sv}::cw_std::SubMsg<{M}>"), ("wasm", f"{sv}::cw_std::WasmMsg"), ("cosmos", f"{sv}::cw_std::CosmosMsg<{M}>")):
+                arm(f"builder:{n}:{recv}",
+                    f"{decls} let recv: {ty} = svmon::serde_json::from_value(a[\"recv\"].clone()).expect(\"recv\"); "
+                    f"let r = <{ty} as sv::SubMsgMethods<{M}>>::{n}(recv, {args}).map(|m| svmon::serde_json::to_value(&m).unwrap()).map_err(herr); finish_plain(r)")
 
     def dyn_iface(self, part):
         """`dyn Trait<Error = .., assoc..>` naming the interface without a contract type."""
